@@ -57,7 +57,21 @@ def boundsConforms (max : Nat) : List Ev → List Out → (arrived : Nat) → Bo
     else o == .pending && boundsConforms max t outs a
   | .poll :: _, [], _ => false
 
+/-- A history: earlier frames, each arriving whole in one piece and handed out by the next poll, then a last
+    frame whose wire size reaches the limit: what the connection carried before changes nothing for it. -/
+def histConforms (max : Nat) : List (List Byte) → List Ev → List Out → Bool
+  | [_], evs, outs => boundsConforms max evs outs 0
+  | f :: rest, .arrive b :: .poll :: evs, o :: outs => b == f ++ [0] && o == .frame f && histConforms max rest evs outs
+  | f :: rest, .poll :: evs, o :: outs => o == .pending && histConforms max (f :: rest) evs outs   -- nothing has arrived yet
+  | _, _, _ => false
+
 def holdsBounds (max : Nat) (frames : List (List Byte)) (evs : List Ev) (outs : List Out) : Bool :=
   if (enc frames).length < max then holds frames evs outs
-  else boundsConforms max evs outs 0
+  else match frames with
+    | [] | [_] => boundsConforms max evs outs 0
+    | _ =>
+      -- several frames, consumed one by one: every frame below the limit is accepted whatever came before it;
+      -- a last frame that reaches the limit is refused as a lone one would be
+      if frames.all (fun f => f.length + 1 < max) then holds frames evs outs
+      else histConforms max frames evs outs
 end SpecRx
